@@ -11,8 +11,14 @@
 EXTENDS Naturals, FiniteSets, Sequences, TLC
 CONSTANTS Components,      \* subset of {"rev","inv","chk","txt","sig","dangle"}
           HasChk,          \* BOOLEAN: format keeps inventories in CHK pages (2a)
+          CheckNeeds,      \* BOOLEAN: commit_write_group verifies that new revisions have their inventory / CHK pages /
+                           \*   texts (GCRepositoryPackCollection._check_new_inventories); the knit-pack formats'
+                           \*   RepositoryPackCollection._check_new_inventories "does no checks" - a named deviation
+          LateRefusal,     \* BOOLEAN: a missing compression parent inside a RESUMED pack is noticed only by
+                           \*   ResumedPack.finish()/_check_references, after _commit_write_group has already dropped its
+                           \*   new pack and moved earlier resumed packs (knit-pack formats, fresh repository object)
           MaxIns
-VARIABLES wg,        \* "none" | "open" | "suspended"
+VARIABLES wg,        \* "none" | "open" | "suspended" | "refused" (commit refused: the caller must abort) | "wrecked"
           ins,       \* components inserted into the current write group
           visible,   \* components a fresh open sees (beyond r1)
           listed,    \* number of packs listed in pack-names beyond the initial one
@@ -22,10 +28,13 @@ VARIABLES wg,        \* "none" | "open" | "suspended"
           fresh      \* BOOLEAN: data inserted since the write group was started / resumed (goes into a new pack)
 vars == <<wg, ins, visible, listed, upload, last, ntok, fresh>>
 
-\* _commit_write_group refuses: missing compression parents, or a NEW REVISION whose inventory / chk pages / texts
-\* are not present in this repository itself
+\* _commit_write_group refuses: missing compression parents (the delta of r3's inventory dangles unless r2's inventory
+\* is in the group or already present), or - where the format checks it - a NEW REVISION whose inventory / chk pages /
+\* texts are not present in this repository itself
 Needs == IF HasChk THEN {"inv", "chk", "txt"} ELSE {"inv", "txt"}
-Refused(S) == ("dangle" \in S) \/ ("rev" \in S /\ ~(Needs \subseteq (S \cup visible)))
+Dangling(S) == "dangle" \in S /\ "inv" \notin (S \cup visible)
+Incomplete(S) == "rev" \in S /\ ~(Needs \subseteq (S \cup visible))
+Refused(S) == Dangling(S) \/ (CheckNeeds /\ Incomplete(S))
 
 Init == wg = "none" /\ ins = {} /\ visible = {} /\ listed = 0 /\ upload = FALSE /\ last = "ok" /\ ntok = 0 /\ fresh = FALSE
 Tick == TRUE
@@ -34,12 +43,12 @@ Start == /\ wg = "none" /\ wg' = "open" /\ ins' = {} /\ upload' = TRUE /\ last' 
          /\ UNCHANGED <<visible, listed>>
 Ins(c) == /\ wg = "open" /\ c \in Components \ (ins \cup visible) /\ Cardinality(ins) < MaxIns
           /\ ins' = ins \cup {c} /\ last' = "ok" /\ Tick /\ fresh' = TRUE /\ UNCHANGED <<wg, visible, listed, upload, ntok>>
-Abort == /\ wg = "open" /\ wg' = "none" /\ ins' = {} /\ upload' = FALSE /\ last' = "ok" /\ Tick
+Abort == /\ wg \in {"open", "refused"} /\ wg' = "none" /\ ins' = {} /\ upload' = FALSE /\ last' = "ok" /\ Tick
          /\ ntok' = 0 /\ fresh' = FALSE
          /\ UNCHANGED <<visible, listed>>
 Commit == /\ wg = "open" /\ Tick
           /\ IF Refused(ins)
-             THEN last' = "refused" /\ UNCHANGED <<wg, ins, visible, listed, upload, ntok, fresh>>     \* still open: caller aborts
+             THEN last' = "refused" /\ wg' = "refused" /\ UNCHANGED <<ins, visible, listed, upload, ntok, fresh>>  \* caller aborts
              ELSE /\ last' = "ok" /\ wg' = "none" /\ ins' = {} /\ upload' = FALSE /\ ntok' = 0 /\ fresh' = FALSE
                   /\ visible' = visible \cup ins /\ listed' = listed + (IF ins = {} THEN 0 ELSE 1)
 Suspend == /\ wg = "open" /\ wg' = "suspended" /\ last' = "ok" /\ Tick
@@ -48,7 +57,11 @@ Suspend == /\ wg = "open" /\ wg' = "suspended" /\ last' = "ok" /\ Tick
            /\ UNCHANGED <<ins, visible, listed>>
 Resume == /\ wg = "suspended" /\ wg' = "open" /\ last' = "ok" /\ Tick /\ upload' = TRUE
           /\ UNCHANGED <<ins, visible, listed, ntok, fresh>>
-Next == Start \/ (\E c \in Components : Ins(c)) \/ Abort \/ Commit \/ Suspend \/ Resume
+\* named deviation: after a LATE refusal the collection has already discarded / moved packs; abort_write_group may raise
+\* (NoSuchFile) and the repository OBJECT is unusable afterwards.  Nothing becomes visible or listed.
+AbortWrecked == /\ wg = "refused" /\ LateRefusal /\ ntok > 0 /\ wg' = "wrecked" /\ last' = "ok" /\ Tick
+                /\ UNCHANGED <<ins, visible, listed, upload, ntok, fresh>>
+Next == Start \/ (\E c \in Components : Ins(c)) \/ Abort \/ AbortWrecked \/ Commit \/ Suspend \/ Resume
 Spec == Init /\ [][Next]_vars
 
 (* C06 as invariants / action properties of the model *)
@@ -58,7 +71,7 @@ NoEffectUntilCommit == [][visible' # visible => (wg = "open" /\ wg' = "none" /\ 
 RefusalIsNoop == [][last' = "refused" => UNCHANGED <<visible, listed, ins>>]_vars
 \* a committed new revision is complete in this repository
 CommittedComplete == "rev" \in visible => Needs \subseteq visible
-NoDangling == "dangle" \notin visible
+NoDangling == "dangle" \in visible => "inv" \in visible
 \* anti-vacuity
 WitnessRefused == last # "refused"
 WitnessTwoTokensCommitted == ~(ntok = 2 /\ wg = "open")
